@@ -25,5 +25,5 @@ Definition entry_needs (clean_first enabled : bool) (configured : list bytes) (r
   let pats := entry_patterns configured in
   (pats, needs_login_seq glob_match clean_first enabled pats [] reqs).
 
-Definition entry_route (clean_first : bool) (configured ingress_paths : list bytes) (r : request) : response :=
-  handler_unauth glob_match clean_first true (entry_patterns configured) ingress_paths r.
+Definition entry_route (clean_first seg : bool) (configured ingress_paths : list bytes) (r : request) : response :=
+  handler_unauth glob_match clean_first seg true (entry_patterns configured) ingress_paths r.
